@@ -85,7 +85,7 @@ def check_single(case):
 
 SEQ_PROFILE = {"taskables": (1, 2), "auxes": (0, 1), "slaves": (0, 0), "frames": (2, 5), "acts": (0, 4), "depth": 2,
                "ticks": (6, 20), "periods": TICKS, "tasker_periods": [None, None, "0.1", "0.25", "0.3"],
-               "aux_policy": "clean", "aux_owner": "taskable", "aux_place": "first", "let_in_aux": False,
+               "aux_policy": "clean", "aux_owner": "taskable", "aux_place": "first", "let_in_aux": False, "aux_share": True,
                "kinds": {"data": 2, "go": 8, "let": 0, "timeout": 5, "repeat": 4, "aux": 1, "auxif": 0, "bid": 0, "done": 2, "fiat": 0},
                "needs": {"cmp": 1, "bool": 0, "elapsed": 7, "recurred": 5, "done": 0, "status": 0, "auxdone": 0},
                "elapsed_goals": [0.0, 0.05, 0.1, 0.15, 0.2, 0.25, 0.3, 0.4, 0.6, 0.7, 0.8, 0.9],
@@ -136,6 +136,14 @@ def work(shard, seed, tier):
     acc = Acc()
     if shard["part"] == "watcher":
         for P in TICKS:
+            for conds in ([["timeout", "0.5"], ["repeat", 3], ["timeout", "0.3"]], [["repeat", 2], ["timeout", "0.25"]],
+                          [["timeout", "0.1"], ["timeout", "0.7"], ["repeat", 1], ["repeat", 4]]):
+                case = {"P": P, "conds": conds}
+                fails = CG.check_handover(case)
+                acc.case(key=("handover", P, repr(conds)), nontrivial=True, classes=["aux-handed-from-frame-to-frame"], sample=None)
+                for sig, what in fails:
+                    acc.fail(sig, what, {"handover": case})
+        for P in TICKS:
             for T in ("0.1", "0.25", "0.3", "0.5", "0.7", "1.0"):
                 for N in (2, 5, 9):
                     case = {"P": P, "T": T, "N": N}
@@ -177,6 +185,8 @@ def work(shard, seed, tier):
 
 
 def replay(case):
+    if "handover" in case:
+        return CG.check_handover(case["handover"])
     if "watcher" in case:
         return CG.check_watcher(case["watcher"])
     if "clone" in case:
